@@ -153,6 +153,18 @@ def run_case(ctx, g, rng):
                 s = rng.choice(WS) + s
         check(ctx, s)
         S.counters["wl:random"] += 1
+    # long strings (far above any plausible length threshold / recursion limit of a matcher): valid ones, and ones
+    # spoilt by a single hostile character at the start, in the middle, at the end
+    for _ in range(6):
+        n = rng.choice([300, 2000, 20000]) if tier == "thorough" else rng.choice([300, 1500])
+        p = "".join(rng.choice("ab_Z9.-") for _ in range(n))
+        p = rng.choice("ab_") + p
+        r = "".join(rng.choice("ab/#?=9._-:") for _ in range(n))
+        for s in (p, p + ":" + r, r, ":" + r):
+            check(ctx, s)
+            i = rng.choice([0, len(s) // 2, len(s)])
+            check(ctx, s[:i] + rng.choice(pool) + s[i:])
+            S.counters["wl:long-strings"] += 2
 
 
 def EXHAUSTIVE(tier, counters):
